@@ -486,9 +486,162 @@ u_random(uint64_t idx, void *arg)
     vh_sig(0x20200000ull ^ idx);
 }
 
+/* inputs beyond the small vocabulary: extreme integers, long tokens, deep nesting, long lists */
+static void
+expect_integer(const char *text, uint64_t value)
+{
+    size_t n = strlen(text);
+    for (int variant = 0; variant < 2; variant++) {
+        char *in = vh_arena(n + (variant ? 0 : 1));
+        memcpy(in, text, n);
+        if (!variant)
+            in[n] = 0;
+        size_t before = __sanitizer_get_current_allocated_bytes();
+        struct sx_parse_result res = variant ? sx_parse_stringn(in, n) : sx_parse_string(in);
+        if (res.status != SXS_SUCCESS || res.node == NULL || res.node->type != SXT_INTEGER
+            || res.node->data.u64 != value || res.position != n)
+            vh_fail("integer-value", variant ? "variant=stringn" : "variant=string",
+                    "text='%s': status=%d value=%" PRIu64 " position=%zu, expected %" PRIu64, text, res.status,
+                    res.node && res.node->type == SXT_INTEGER ? res.node->data.u64 : 0, res.position, value);
+        sx_destroy(&res.node);
+        if (__sanitizer_get_current_allocated_bytes() != before)
+            vh_fail("leak", "variant=special", "text='%s'", text);
+    }
+    VH_COUNT("special: integer boundary values");
+}
+
+static void
+u_special(uint64_t idx, void *arg)
+{
+    (void)arg;
+    (void)idx;
+    static const struct { const char *t; uint64_t v; } ints[] = {
+        { "0", 0 }, { "00", 0 }, { "007", 7 }, { "255", 255 }, { "256", 256 }, { "65535", 65535 }, { "65536", 65536 },
+        { "4294967295", 4294967295ull }, { "4294967296", 4294967296ull }, { "9223372036854775807", 9223372036854775807ull },
+        { "9223372036854775808", 9223372036854775808ull }, { "18446744073709551615", 18446744073709551615ull },
+        { "#x0", 0 }, { "#xff", 255 }, { "#xFF", 255 }, { "#x100", 256 }, { "#xffff", 65535 }, { "#x10000", 65536 },
+        { "#xFFFFFFFF", 4294967295ull }, { "#x100000000", 4294967296ull }, { "#x7fffffffffffffff", 9223372036854775807ull },
+        { "#x8000000000000000", 9223372036854775808ull }, { "#xffffffffffffffff", 18446744073709551615ull },
+        { "#xFfFfFfFfFfFfFfFf", 18446744073709551615ull }, { "#xABCDEFabcdef", 0xabcdefabcdefull },
+        { "#x0123456789abcdef", 0x0123456789abcdefull }, { "#x000000000000000001", 1 },
+    };
+    for (size_t i = 0; i < sizeof ints / sizeof ints[0]; i++) {
+        vh_arena_reset();
+        VH_CASE2(1, i);
+        expect_integer(ints[i].t, ints[i].v);
+    }
+    /* long symbols and long digit strings, each also as the last element of a list */
+    static char text[70000];
+    static const size_t lens[] = { 1, 2, 15, 16, 17, 254, 255, 256, 257, 1000, 4095, 4096, 65535, 65536, 66000 };
+    for (size_t li = 0; li < sizeof lens / sizeof lens[0]; li++)
+        for (int inlist = 0; inlist < 2; inlist++) {
+            vh_arena_reset();
+            size_t L = lens[li], o = 0;
+            if (inlist)
+                text[o++] = '(';
+            for (size_t i = 0; i < L; i++)
+                text[o++] = (char)(i == 0 ? 'q' : "abz-09Y+"[i % 8]);
+            if (inlist)
+                text[o++] = ')';
+            VH_CASE4(2, L, inlist, 0);
+            for (int variant = 0; variant < 2; variant++) {
+                char *in = vh_arena(o + (variant ? 0 : 1));
+                memcpy(in, text, o);
+                if (!variant)
+                    in[o] = 0;
+                size_t before = __sanitizer_get_current_allocated_bytes();
+                struct sx_parse_result res = variant ? sx_parse_stringn(in, o) : sx_parse_string(in);
+                const struct sx_node *sym = res.node;
+                if (inlist && sym && sym->type == SXT_PAIR)
+                    sym = sym->data.pair->car;
+                if (res.status != SXS_SUCCESS || sym == NULL || sym->type != SXT_SYMBOL || strlen(sym->data.symbol) != L
+                    || memcmp(sym->data.symbol, text + inlist, L) != 0 || res.position != o)
+                    vh_fail("long-symbol", variant ? "variant=stringn" : "variant=string",
+                            "symbol of %zu characters%s: status=%d position=%zu", L, inlist ? " in a list" : "", res.status,
+                            res.position);
+                sx_destroy(&res.node);
+                if (__sanitizer_get_current_allocated_bytes() != before)
+                    vh_fail("leak", "variant=special", "symbol of %zu characters", L);
+            }
+            VH_COUNT("special: long symbols");
+        }
+    /* deep nesting and long flat lists */
+    static const size_t depths[] = { 1, 2, 8, 64, 255, 256, 257, 1000, 3000 };
+    for (size_t di = 0; di < sizeof depths / sizeof depths[0]; di++)
+        for (int flat = 0; flat < 2; flat++) {
+            vh_arena_reset();
+            size_t D = depths[di], o = 0;
+            if (flat) {
+                text[o++] = '(';
+                for (size_t i = 0; i < D; i++) {
+                    o += (size_t)sprintf(text + o, "%zu ", i);
+                }
+                text[o++] = ')';
+            } else {
+                for (size_t i = 0; i < D; i++)
+                    text[o++] = '(';
+                text[o++] = 'x';
+                for (size_t i = 0; i < D; i++)
+                    text[o++] = ')';
+            }
+            VH_CASE4(3, D, flat, 0);
+            for (int variant = 0; variant < 2; variant++) {
+                char *in = vh_arena(o + (variant ? 0 : 1));
+                memcpy(in, text, o);
+                if (!variant)
+                    in[o] = 0;
+                size_t before = __sanitizer_get_current_allocated_bytes();
+                struct sx_parse_result res = variant ? sx_parse_stringn(in, o) : sx_parse_string(in);
+                int ok = res.status == SXS_SUCCESS && res.node != NULL && res.position == o;
+                const struct sx_node *nd = res.node;
+                if (ok && flat) {
+                    for (size_t i = 0; ok && i < D; i++) {
+                        ok = nd && nd->type == SXT_PAIR && nd->data.pair->car && nd->data.pair->car->type == SXT_INTEGER
+                             && nd->data.pair->car->data.u64 == i;
+                        if (ok)
+                            nd = nd->data.pair->cdr;
+                    }
+                    ok = ok && nd && nd->type == SXT_EMPTY_LIST;
+                } else if (ok) {
+                    for (size_t i = 0; ok && i < D; i++) {
+                        ok = nd && nd->type == SXT_PAIR && nd->data.pair->cdr && nd->data.pair->cdr->type == SXT_EMPTY_LIST;
+                        if (ok)
+                            nd = nd->data.pair->car;
+                    }
+                    ok = ok && nd && nd->type == SXT_SYMBOL && strcmp(nd->data.symbol, "x") == 0;
+                }
+                if (!ok)
+                    vh_fail("deep-or-long-list", variant ? "variant=stringn" : "variant=string",
+                            "%s of %zu: status=%d position=%zu (input %zu)", flat ? "flat list" : "nesting", D, res.status,
+                            res.position, o);
+                sx_destroy(&res.node);
+                if (__sanitizer_get_current_allocated_bytes() != before)
+                    vh_fail("leak", "variant=special", "%s of %zu", flat ? "flat list" : "nesting", D);
+                /* the same input cut short by one character must fail cleanly */
+                if (o > 1) {
+                    char *cut = vh_arena(o - 1);
+                    memcpy(cut, text, o - 1);
+                    before = __sanitizer_get_current_allocated_bytes();
+                    res = sx_parse_stringn(cut, o - 1);
+                    if (res.status == SXS_SUCCESS || res.node != NULL)
+                        vh_fail("unterminated-accepted", "variant=stringn", "%s of %zu without its last character: status=%d",
+                                flat ? "flat list" : "nesting", D, res.status);
+                    sx_destroy(&res.node);
+                    if (__sanitizer_get_current_allocated_bytes() != before)
+                        vh_fail("leak", "variant=special", "unterminated %s of %zu", flat ? "flat list" : "nesting", D);
+                }
+            }
+            VH_COUNT("special: deep nesting and long lists");
+        }
+    vh_sig(0x20300000ull);
+    vh_sample("special", "integers at 2^8, 2^16, 2^32, 2^63, 2^64-1 in decimal and both hex cases; symbols of up to 66000 "
+                         "characters; nesting depth and list length up to 3000");
+}
+
 void
 harness_run(void)
 {
+    vh_unit("special", 0, u_special, NULL);
     for (uint64_t i = 0; i < 64; i++)
         vh_unit("trees", i, u_trees, NULL);
     size_t maxlen = vh_tier ? 7 : 5;
@@ -504,7 +657,8 @@ harness_run(void)
     static const char *req[] = { "trees rendered, parsed and compared", "trees: the empty list itself",
                                  "trees: empty list nested inside a list", "strings: reference reader accepts",
                                  "strings: reference reader rejects", "enumerated strings of length 5",
-                                 "random structured strings" };
+                                 "random structured strings", "special: integer boundary values",
+                                 "special: long symbols", "special: deep nesting and long lists" };
     for (size_t i = 0; i < sizeof req / sizeof req[0]; i++)
         vh_require(req[i]);
 }
